@@ -88,6 +88,58 @@ def run_shard(desc):
                 part["violations"].append({"sig": [kind_, "enum"], "what": detail, "replay": None})
             else:
                 part["inconclusive"].append("%s: %s" % (kind_, detail))
+    elif kind == "config":
+        # operators registered in mid-process, AFTER their word was already parsed as a plain name on the same thread (and, as a
+        # control, before any parse): every token sequence of length <= 3 over the new operators, operands and delimiters plus random
+        # longer ones must then be judged with the new table
+        import itertools
+        words = rnd.sample(["within", "negated", "pct", "upto", "mod2", "é2", "~~", "<>", "§", "nota", "inn", "k9"], 3)
+        kinds_ = [rnd.choice(["prefix", "infix", "postfix"]) for _ in words]
+        if si % 3 == 0:
+            kinds_[0], kinds_[1] = "prefix", "infix"
+        table = ref.BUILTINS.copy()
+        regs = []
+        for w, k in zip(words, kinds_):
+            if k == "prefix":
+                table.prefix.add(w)
+                regs.append({"op": "reg_prefix", "name": w, "beh": {"id": 1}})
+            elif k == "postfix":
+                table.postfix.add(w)
+                regs.append({"op": "reg_postfix", "name": w, "beh": {"id": 2}})
+            else:
+                table.infix[w] = (65, "LEFT", "CALC")
+                regs.append({"op": "reg_infix", "name": w, "prec": 65, "type": "CALC", "assoc": "LEFT", "beh": {"id": 3}})
+        alpha = words + ["1", "x", "(", ")", "[", "]", ",", "+", "?", ":", "f("]
+        seqs = [list(c) for n_ in (1, 2, 3) for c in itertools.product(alpha, repeat=n_)]
+        for _ in range(arg):
+            seqs.append([rnd.choice(alpha) for _ in range(rnd.randint(4, 7))])
+        texts = [" ".join(q) for q in seqs]
+        wordlike = [w for w in words if w[0] not in ref.OPCHARS]
+        warm = [{"op": "parse", "text": t_} for w in wordlike for t_ in (w, "1 + " + w, "f(%s, 2)" % w, "[%s]" % w, w + " = 3")]
+        for early in (False, True):
+            steps = (regs + warm if early else warm + regs) + [{"op": "parse", "text": t_} for t_ in texts]
+            off = len(regs) + len(warm)
+            recs, events, _ = common.run_batch(steps, wd, "config-%d-%d-%s" % (si, early, profile), profile, timeout=1200)
+            for t_, r in zip(texts, recs[off:]):
+                if r is None:
+                    continue
+                part["evaluations"] += 1
+                C["wl_config"] = C.get("wl_config", 0) + 1
+                if r.get("p") == "ok":
+                    st, toks = judge_accepted(t_, table)
+                    if st == "abstain":
+                        part["abstained"] += 1
+                    elif st == "in":
+                        part["classes"].add("config:" + " ".join(x if x not in words else kinds_[words.index(x)] for x in abstract(toks))[:60])
+                    else:
+                        viol(t_, toks, "with %s registered %s," % (", ".join("%s as %s" % wk for wk in zip(words, kinds_)), "before the first parse" if early else "after their words had been parsed as plain names"))
+                        part["violations"][-1]["sig"] = ["accepted-outside-grammar", "config", [x if x not in words else kinds_[words.index(x)] for x in abstract(toks)][:8]]
+                        part["violations"][-1]["replay"] = {"steps": steps[:off] + [{"op": "parse", "text": t_, "want": "ae"}], "profile": profile, "table": [words, kinds_]}
+            for kind_, detail, k in events:
+                if kind_ in ("signal", "hang", "deadlock"):
+                    part["violations"].append({"sig": [kind_, kind], "what": detail, "replay": None})
+                else:
+                    part["inconclusive"].append("%s: %s" % (kind_, detail))
     elif kind == "special":
         # malformed literals and separators that must be rejected, each also as the very first engine call of a
         # fresh process (lazy initialisation must not change what is accepted)
@@ -196,6 +248,7 @@ def run(rep, tier):
     nt = 1600 if tier == "quick" else 40000
     nc = 16000 if tier == "quick" else 400000
     shards += [("tokfault", i, 0, nt // 16, "release" if i % 2 else "verifdbg") for i in range(16)]
+    shards += [("config", i, 0, 300 if tier == "quick" else 6000, "release" if i % 2 else "verifdbg") for i in range(16)]
     shards += [("corrupt", i, 0, nc // 16, "release" if i % 2 else "verifdbg") for i in range(16)]
     for part in common.pmap(run_shard, shards):
         rep.merge(part)
@@ -208,9 +261,17 @@ def replay(path):
     d = json.load(open(path))
     r = d["replay"]
     run = common.run_vexec(r["steps"], common.workdir(PROP, "replay"), "replay", r.get("profile", "verifdbg"))
-    rec = run.steps()[0]
+    rec = run.steps()[-1]
     print(json.dumps(rec, ensure_ascii=False))
-    st, _ = judge_accepted(r["steps"][0]["text"])
+    table = ref.BUILTINS
+    if r.get("table"):
+        table = ref.BUILTINS.copy()
+        for w, k in zip(*r["table"]):
+            if k == "infix":
+                table.infix[w] = (65, "LEFT", "CALC")
+            else:
+                getattr(table, k).add(w)
+    st, _ = judge_accepted(r["steps"][-1]["text"], table)
     if rec.get("p") == "ok" and st == "out":
         print("VIOLATION property=%s replay=%s" % (PROP, path))
         return 1
